@@ -15,6 +15,7 @@ import (
 	"github.com/libp2p/go-libp2p/core/host"
 	"github.com/libp2p/go-libp2p/core/peer"
 	"github.com/libp2p/go-libp2p/core/protocol"
+	ma "github.com/multiformats/go-multiaddr"
 	ks "github.com/whyrusleeping/go-keyspace"
 
 	"github.com/libp2p/go-libp2p-kad-dht/internal/simnet"
@@ -117,6 +118,21 @@ type world struct {
 	rank   map[peer.ID]int
 	n      int
 	dialFail map[peer.ID]bool
+	// groupSize > 0: peer addresses are spread over /16 blocks, `groupSize` consecutive ranks per block
+	groupSize int
+}
+
+// addrBytes is the single address a response carries for the peer of the given rank.
+func (w *world) addrBytes(rank int) []byte {
+	if w.groupSize <= 0 {
+		return vAddr(rank+1, 8, false).Bytes()
+	}
+	g := rank / w.groupSize
+	m, err := ma.NewMultiaddr(fmt.Sprintf("/ip4/%d.%d.0.%d/tcp/4001", 20+g/200, g%200, rank%250+1))
+	if err != nil {
+		panic(err)
+	}
+	return m.Bytes()
 }
 
 // newWorld creates a host and DHT (client of a scripted network). Rank n is the local node itself.
@@ -240,7 +256,7 @@ func (w *world) findParked(rank int) *parked {
 func (w *world) closerPeersMsg(req *pb.Message, ranks []int) *pb.Message {
 	m := &pb.Message{Type: req.GetType(), Key: req.GetKey()}
 	for _, r := range ranks {
-		m.CloserPeers = append(m.CloserPeers, &pb.Message_Peer{Id: []byte(w.peerOf(r)), Addrs: [][]byte{vAddr(r+1, 8, false).Bytes()}})
+		m.CloserPeers = append(m.CloserPeers, &pb.Message_Peer{Id: []byte(w.peerOf(r)), Addrs: [][]byte{w.addrBytes(r)}})
 	}
 	return m
 }
